@@ -23,7 +23,9 @@ RULE = ("cases as in C01-C03 (several byte intervals per section; patches option
         "one added, or the returning blocks of a function given different return sites). For every spec: the canonical dump (block boundaries, edge multiset, symbol names incl. "
         "temporary-label suffixes, aux data) of (base run) == (second run, fresh UUIDs) == (registration order permuted "
         "among modifications that target different locations) == (junk symbols/proxies added first) == (the same spec "
-        "rewritten in K child processes with other PYTHONHASHSEED values; quick K=3, thorough K=8). An exception in one "
+        "rewritten in K child processes with other PYTHONHASHSEED values; quick K=3, thorough K=8); and, for cases with >= 2 "
+        "modifications in single-interval sections, the modifications applied one at a time (a RewritingContext each, so "
+        "that later contexts start from what earlier rewrites left behind) three times with fresh objects. An exception in one "
         "configuration and not in another is a disagreement too. Non-trivial = the case edits or deletes a block that "
         "carries >= 2 symbols, or has >= 2 modifications; distinct by spec hash.")
 ASSUMPTIONS = [
@@ -106,6 +108,31 @@ def digest_of(spec, variant):
             built.module.symbols.discard(j)
         else:
             built.module.proxies.discard(j)
+    return _dump_digest(built)
+
+
+def digest_seq(spec):
+    """the same modifications applied one at a time, each in its own RewritingContext (every later context builds
+    its caches from an IR that earlier rewrites left behind, zero-sized blocks included)"""
+    from . import c09
+
+    case = Lm.Case(spec)
+    exp = Lm.Expected(case)
+    if Lm.out_of_domain(case, exp):
+        return "EXCLUDED"
+    built = Lm.build(case)
+    try:
+        st, err = c09._run_sequential(case, built)
+    except Exception as e:
+        return "EXC:" + exc_kind(e)
+    if st == "unlocatable":
+        return "UNLOCATABLE"
+    if st == "raised":
+        return "EXC:" + exc_kind(err)
+    return _dump_digest(built)
+
+
+def _dump_digest(built):
     # the address order in which the closing re-layout left the input's byte
     # intervals is compared separately (clause C11.layout-order); everything
     # else is compared on the listing order
@@ -134,6 +161,19 @@ def _judge(out, clause, d0, d, prefix=""):
     else:
         out.fail(clause, "dump-differs", f"{prefix}{d0} vs {d}")
     return True
+
+
+def _judge_sequence(out, spec, case):
+    """a sequence of rewrites is deterministic too: the modifications one at a time, three times with fresh objects"""
+    if len(case.edits) < 2 or spec.get("multi_iv"):
+        return
+    s0 = digest_seq(spec)
+    if s0 in ("EXCLUDED", "UNLOCATABLE"):
+        return
+    out.classes.append("sequence-of-rewrites")
+    for _ in range(2):
+        if _judge(out, "C11.sequence", s0, digest_seq(spec)):
+            break
 
 
 def _nontrivial(case):
@@ -182,6 +222,7 @@ def worker(rec, tier, shard_seed, n_examples):
         out.nontrivial = _nontrivial(case)
         for variant in ("base", "perm", "junk"):
             _judge(out, "C11." + ("repeat" if variant == "base" else variant), d0, digest_of(spec, variant))
+        _judge_sequence(out, spec, case)
         spec["_base"] = d0
         rec.pending = getattr(rec, "pending", [])
         rec.pending.append((spec, out))
@@ -226,6 +267,7 @@ def evaluate(spec):
         out.classes.append("patches-with-constraints")
     for variant in ("base", "perm", "junk"):
         _judge(out, "C11." + ("repeat" if variant == "base" else variant), d0, digest_of(spec, variant))
+    _judge_sequence(out, spec, case)
     with tempfile.NamedTemporaryFile("w", suffix=".json", delete=False) as f:
         json.dump([spec], f)
         path = f.name
